@@ -14,8 +14,7 @@ import XlVerif.Spec.C03
   by `~`: `n<int>`, `u<f>`, `b<f>`, `r<raw>^<k>^<sheet|*>^<c1>^<r1>^<c2>^<r2>` (k = c cell, r range, n name — the
   name's text is then in the sheet position).  Names `name@text@k@sheet@c1@r1@c2@r2` joined by `;`.  Probes
   `addr@k@sheet@col@row` joined by `;` (k = a: evaluate an address; n: evaluate a defined name).
-  Response `impl=o1|o2|…  spec=…  trunc=b1|b2|… (per probe: in the region of D6)  d0301=b1|b2|… (per probe: in the
-  region of D0301)  kf=<workbook-level guards D0302, D0303>`.
+  Response `impl=o1|o2|…  spec=…  trunc=b1|b2|… (per probe: in the region of D6)  kf=<workbook-level guard D0303>`.
 -/
 namespace XlVerif.Drv.C03
 open XlVerif
@@ -147,9 +146,9 @@ def outWire (o : Out V) : String := o.wire V.wire
 
 /-- the sheet part of a reference text contains `ch` -/
 def sheetPartHas (ch : Char) (t : Text) : Bool :=
-  match splitOn '!' t with
-  | [sh, _] => has ch sh
-  | _ => false
+  match rsplitLast '!' t with
+  | some (sh, _) => has ch sh
+  | none => false
 
 def bigFuel : Nat := 400
 def noLimit : Nat := 1000000000
@@ -184,21 +183,13 @@ def handleEV (dflt items names probes : String) : String :=
       let listed := if Gen.maxEmpty == d6Threshold then impls else probes.map (implOf d6Threshold)
       let untr := probes.map (implOf noLimit)
       let trunc := (listed.zip untr).map fun p => if outWire p.1 == outWire p.2 then "0" else "1"
-      -- region of D0301: the result changes when the cells materialised with '' are read as blank
-      let wbBlank : Wb := { wb with cells := wb.cells.map fun kc =>
-        if kc.2.formula.isNone && kc.2.value == .text [] then (kc.1, { kc.2 with value := .blank }) else kc }
-      let ub := probes.map fun pr => match pr with
-        | .addr a _ => evaluate cUn cBin noLimit wbBlank bigFuel a
-        | .name n => evaluate cUn cBin noLimit wbBlank bigFuel n
-      let d0301 := (untr.zip ub).map fun p => if outWire p.1 == outWire p.2 then "0" else "1"
       let refs := (items.filterMap fun i => match i.item with
         | .formula e => some (e.mapRef tokRef).refs | _ => none).flatten
       let keys := items.map (·.key)
       let flags : List String :=
-        (if (refs ++ keys ++ names.map (·.text)).any (sheetPartHas '$') then ["D0302"] else []) ++
         (if refs.any (sheetPartHas ',') then ["D0303"] else [])
       kv [("impl", join "|" (impls.map outWire)), ("spec", join "|" (specs.map outWire)),
-          ("trunc", join "|" trunc), ("d0301", join "|" d0301), ("kf", join "," flags),
+          ("trunc", join "|" trunc), ("kf", join "," flags),
           ("ranges", toString wb.ranges.length), ("cells", toString wb.cells.length)]
     | o =>
       kv [("impl", join "|" (probes.map fun _ => outWire (o.map fun _ => V.s .blank))),
